@@ -364,7 +364,7 @@ func (s *Sched) loop(mainT *task) {
 		}
 		s.mu.Unlock()
 		if n == 0 {
-			if mainDone {
+			if mainDone && s.sleepers.Load() == 0 {
 				return
 			}
 			// nothing runnable: let virtual time advance until somebody parks
